@@ -386,6 +386,12 @@ def execute(trace, ctx):
             tk = tuple(skey(x) for x in t)
             gotm = (T(t[0]), T(t[1]), T(t[2])) in ds
             ctx.check(gotm == (tk in merged), "C02.merged-membership", lambda: f"{where}: {t} in ds -> {gotm}, model {tk in merged}")
+        if len(preds) >= 2:
+            # triples_choices without a graph: the merged view as well
+            chp = [T(preds[0]), T(preds[1])]
+            gotch = {tkey(t) for t in ds.triples_choices((None, chp, None))}
+            expch = {t for t in merged if t[1] in (skey(preds[0]), skey(preds[1]))}
+            ctx.check(gotch == expch, "C02.merged-choices", lambda: f"{where}: ds.triples_choices((ANY, [p1, p2], ANY)) (default_union={cfg['union']}) missing={_srt(expch - gotch)} extra={_srt(gotch - expch)}")
         if cfg["union"]:
             ctx.check(len(ds) == len(merged), "C02.merged-len", lambda: f"{where}: len(ds) = {len(ds)}, union has {len(merged)} distinct triples")
         unionall = set().union(*model.values())
@@ -494,7 +500,8 @@ def execute(trace, ctx):
                 hitg = [n for n, ts in model.items() if any(match(t, x) for x in ts)]
                 if len(hitg) >= 2:
                     ctx.probe("remove-no-graph-hit-2+graphs")
-                (cg if via == "cg" else ds).remove(pat)
+                # (no graph: as a triple, or as a quad whose graph is None - both mean every graph)
+                (cg if via == "cg" else ds).remove(pat if op["uid"] % 2 else pat + (None,))
                 for n in model:
                     model[n] = {x for x in model[n] if not match(t, x)}
             else:
